@@ -1,6 +1,7 @@
 package zygo
 
 import (
+	"bytes"
 	"errors"
 	"fmt"
 	"io"
@@ -81,6 +82,16 @@ func (p *Parser) Stop() error {
 
 func (p *Parser) NewInput(s io.RuneScanner) {
 	p.lexer.AddNextStream(s)
+}
+
+// AddEndOfText tells the parser that the input added so far is a
+// complete text, by queueing a final newline behind it. The lexer
+// only finishes an atom (or a // comment) when it sees the delimiter
+// that follows, so without this the last token of a text that does not
+// end in whitespace was silently lost: EvalString("12") returned nil.
+// Callers that deliver a text piece by piece (the REPL) do not call it.
+func (p *Parser) AddEndOfText() {
+	p.lexer.AddNextStream(bytes.NewBufferString("\n"))
 }
 
 func (p *Parser) ResetAddNewInput(s io.RuneScanner) {
@@ -615,6 +626,17 @@ func (p *Parser) ParsingIter() iter.Seq[*ParserReply] {
 		const depth0 int = 0
 		for {
 			expr, err = p.ParseExpression(depth0)
+			if err == nil && expr == SexpEnd && p.lexer.midToken() {
+				// the input so far ends inside a string, raw string
+				// or character literal: an unfinished prefix, like
+				// an open bracket; ask for more instead of reporting
+				// a successful, empty parse.
+				p.sendMe.Err = ErrMoreInputNeeded
+				if !yield(p.sendMe) {
+					return
+				}
+				continue
+			}
 			if err != nil || expr == SexpEnd {
 				p.sendMe.Err = err
 				yield(p.sendMe)
